@@ -566,7 +566,23 @@ func runC03(c *Ctx) {
 						if !isB {
 							continue
 						}
-						p, isLen := isLenOf(info, be.X)
+						lenX := be.X
+						// the length kept in a local of its own (`if n := len(parts); n == 3`): accepted when both the
+						// local and the indexed variable are assigned exactly once in the function
+						if id, isId := ast.Unparen(lenX).(*ast.Ident); isId {
+							if lv, isV := info.Uses[id].(*types.Var); isV && !lv.IsField() {
+								if rhs, _, cnt := singleDef(info, ff.Body, lv); cnt == 1 && rhs != nil {
+									if rid, isRid := ast.Unparen(x.X).(*ast.Ident); isRid {
+										if rv, isRv := info.Uses[rid].(*types.Var); isRv && !rv.IsField() {
+											if _, _, rcnt := singleDef(info, ff.Body, rv); rcnt == 1 {
+												lenX = rhs
+											}
+										}
+									}
+								}
+							}
+						}
+						p, isLen := isLenOf(info, lenX)
 						if !isLen || p.Key() != sp.Key() {
 							continue
 						}
